@@ -4,7 +4,8 @@
    (C08) into Connection::receive_message, after fix commit a22584b.  The correspondence run drives a real
    Connection against a scripted peer over a loopback socket and compares it with this model. *)
 From EDP Require Import Base.Bytes Term.Term Gen.Tags Gen.ControlTable Gen.DecoderArms Codec.Encode Codec.Decode Codec.Norm
-  Order.Cmp Dist.Fragment Dist.Control Dist.Framing Dist.Receive Dist.ReceiveFacts.
+  Order.Cmp Codec.DistHeader Codec.AtomCache Codec.AtomCacheFacts Codec.DistHeaderFacts Dist.Fragment Dist.Control Dist.Framing Dist.Receive Dist.ReceiveFacts
+  Dist.ReceiveHeaderFacts.
 
 (* a tick never surfaces and leaves the connection's receive state alone *)
 Theorem C06_tick : forall cfg st, handle_frame cfg st [] = (st, OContinue).
@@ -53,5 +54,54 @@ Example C06_example :
   let m := [112; 131; 104; 3; 97; 2; 119; 0; 88; 119; 1; 110; 0; 0; 0; 1; 0; 0; 0; 2; 0; 0; 0; 3; 131; 107; 0; 1; 1] in
   exists d, fst (outcomes cfg rstate_init [m; []; [112; 131; 255]; m]) = [d; RFail; d] /\ d <> RFail.
 Proof. cbv zeta. eexists. split; [vm_compute; reflexivity|discriminate]. Qed.
+
+(* with distribution headers negotiated: a message of a conforming sender with an atom cache (C14: new entries,
+   references to entries of earlier messages, overwrites, any segment) is delivered as the control tuple and payload
+   the sender meant, and the connection's cache follows the sender's *)
+Theorem C06_header_frame_delivery : forall cfg kc ki st sc m,
+  d_arms cfg = owned_arms -> d_kcmp cfg = kc -> d_kinsert cfg = ki ->
+  agree (r_cache st) sc -> conform kc ki sc m ->
+  exists d, sender_bytes sc m = Some d /\
+    handle_frame cfg st d = (with_cache st (fold_left push (m_es m) (r_cache st)),
+                             to_outcome (norm (m_ctl m)) (option_map norm (m_pl m))).
+Proof. intros cfg kc ki st sc m Ha Hk Hi. exact (header_frame cfg Ha kc ki Hk Hi st sc m). Qed.
+
+(* every history of such messages mixed with ticks and pass-through frames of any content (junk included): the
+   outcomes are, in order, each message as meant, nothing for a tick, and for a pass-through frame what it is worth on
+   its own; with C06_exactly_once_in_order this is what successive receive calls return over any segmentation *)
+Theorem C06_header_mode_stream : forall cfg kc ki items st sc,
+  d_arms cfg = owned_arms -> d_kcmp cfg = kc -> d_kinsert cfg = ki ->
+  agree (r_cache st) sc -> items_ok kc ki sc items ->
+  exists frames, wire sc items = Some frames /\ fst (outcomes cfg st frames) = expected cfg items.
+Proof. intros cfg kc ki items st sc Ha Hk Hi. exact (header_mode_stream cfg Ha kc ki Hk Hi items st sc). Qed.
+
+(* the premises are met: two messages of a sender that creates entries in segments 0 and 1 and then refers to them at
+   swapped positions, with a tick and a junk pass-through frame between them *)
+Definition cfg06 : dcfg :=
+  {| d_arms := owned_arms; d_cache := []; d_refs := []; d_inflate := fun _ => None; d_float_text := fun _ => None;
+     d_kcmp := cmp_owned; d_kinsert := map_insert; d_extra_fuel := 0 |}.
+Definition nh : bytes := [110; 64; 104].
+Definition hello : bytes := [104; 101; 108; 108; 111].
+Definition pid1 := TPid {| pnode := nh; pnum := 1; pserial := 2; pcreation := 3; ploc := None |}.
+Definition items3 : list item :=
+  [ IMsg {| m_es := [ENew 0 0 nh; ENew 1 5 hello]; m_long := false; m_ctl := TTuple [TInt 2; TAtom []; pid1]; m_pl := Some (TAtom hello) |};
+    ITick; IPass [131; 255];
+    IMsg {| m_es := [EOld 1 5; EOld 0 0]; m_long := false; m_ctl := TTuple [TInt 2; TAtom []; pid1]; m_pl := Some (TTuple [TAtom hello; TAtom nh]) |} ].
+Ltac c_nle := vm_compute; discriminate.
+Ltac c_nlt := vm_compute; reflexivity.
+Ltac c_conj := repeat match goal with |- _ /\ _ => split end.
+Example C06_header_mode_premises :
+  items_ok cmp_owned map_insert [] items3 /\ (exists fr, wire [] items3 = Some fr) /\
+  exists d1 d2, expected cfg06 items3 = [d1; RFail; d2] /\ d1 <> RFail /\ d2 <> RFail.
+Proof.
+  split; [|split; [eexists; vm_compute; reflexivity|do 2 eexists; split; [vm_compute; reflexivity|split; discriminate]]].
+  cbn [items_ok items3]. unfold conform, terms_of. cbn [m_es m_long m_ctl m_pl length fold_left push].
+  c_conj; try exact I; try lia.
+  all: try match goal with |- meant _ _ <> None => vm_compute; discriminate end.
+  all: repeat match goal with |- Forall _ _ => constructor end; c_conj.
+  all: try match goal with |- wf _ = true => vm_compute; reflexivity end.
+  all: try match goal with |- e_ok _ _ => cbn [e_ok]; unfold atom_fits; c_conj; try c_nlt; try c_nle; try (intros _; c_nle) end.
+  all: cbn [rt_ok pid1]; unfold pid_ok, atom_ok, loc_modern; cbn [pnode ploc]; c_conj; try exact I; try c_nle.
+Qed.
 
 Check C06_exactly_once_in_order.
